@@ -6,7 +6,7 @@ for f in range(4):
                     clause='3 routines x 2 symbolic steps over {yield, %s ops}; idle-state and cancel/cleanup checks' % FAM[f]))
     JOBS.append(Job('scripts.%s.r2s3' % FAM[f], 'C18/coroutine.cpp', 'h_scripts', 'B', defs={'FAMILY': f, 'NR': 2, 'NS': 3}, reach=['scripts'], timeout=1700,
                     clause='2 routines x 3 symbolic steps over {yield, %s ops}' % FAM[f]))
-    JOBS.append(Job('scripts.%s.r3s3' % FAM[f], 'C18/coroutine.cpp', 'h_scripts', 'B', defs={'FAMILY': f, 'NR': 3, 'NS': 3}, reach=['scripts'], timeout=3400, tier='thorough',
+    JOBS.append(Job('scripts.%s.r3s3' % FAM[f], 'C18/coroutine.cpp', 'h_scripts', 'B', defs={'FAMILY': f, 'NR': 3, 'NS': 3}, reach=['scripts'], timeout=7200, tier='thorough',
                     clause='3 routines x 3 symbolic steps over {yield, %s ops}' % FAM[f]))
 JOBS.append(Job('join.cancel', 'C18/coroutine.cpp', 'h_join_cancel', 'B', reach=['join_cancel'], timeout=900, clause='join vs cancel: target created ready or suspended, cancelled after 0-2 loop passes (before its first run / after it started) or not at all: the joiner always returns from join()'))
 JOBS.append(Job('wakeall', 'C18/coroutine.cpp', 'h_wakeall', 'B', reach=['wakeall'], timeout=900, clause='broadcast (0-3 waiters), condition kAll/kAny with early/late posts, join'))
